@@ -186,12 +186,15 @@ pub fn rec_optval(args: &Args) {
         out.ev(json!({"op": "str_dec", "in": jbytes(&b), "out": o}));
     }
     // typed builder sequences: the typed setters/getters on a message, element by element
-    let nums: [u16; 6] = [6, 12, 14, 60, 2000, 0];
-    for ep in 0..(if thorough { 3000 } else { 400 }) {
+    // the numbers an episode works on: Observe and Content-Format (which have setters of their own) plus a draw
+    // from every registered option number and a few unregistered ones - no number is special to the typed API
+    let all_nums: [u16; 27] = [0, 1, 3, 4, 5, 6, 7, 8, 9, 11, 12, 14, 15, 17, 20, 23, 27, 28, 35, 39, 60, 258, 2, 2000, 65000, 65535, 13];
+    for ep in 0..(if thorough { 3000 } else { 500 }) {
         out.ev(json!({"op": "reset"}));
         let mut p = Packet::new();
+        let nums: [u16; 6] = if ep % 5 == 0 { [6, 12, 14, 60, 2000, 0] } else { [6, 12, *r.pick(&all_nums), *r.pick(&all_nums), *r.pick(&all_nums), *r.pick(&all_nums)] };
         // half of the episodes concentrate on two numbers so that multi-valued options meet the setters
-        let focus: [u16; 2] = [6, *r.pick(&[12u16, 60])];
+        let focus: [u16; 2] = [*r.pick(&[6u16, nums[2]]), *r.pick(&[12u16, 60, nums[3]])];
         for _ in 0..r.range(1, 12) {
             let num = if ep % 2 == 0 { *r.pick(&focus) } else { *r.pick(&nums) };
             let w = *r.pick(&[1u64, 2, 4, 8]);
@@ -203,7 +206,7 @@ pub fn rec_optval(args: &Args) {
                     ("add_option_uint", json!({"num": num, "w": w, "digits": digits(x, w as usize)}))
                 }
                 2 => {
-                    let mut s: String = (0..r.below(5)).map(|_| *r.pick(&['a', 'é', '/', '😁', ' ', '\u{FEFF}', '\u{0}', '\u{D7FF}', '\u{E000}', '\u{10FFFF}'])).collect();
+                    let mut s: String = (0..r.below(5)).map(|_| *r.pick(&['a', 'é', '/', '😁', ' ', '\u{FEFF}', '\u{0}', '\u{D7FF}', '\u{E000}', '\u{10FFFF}', 'A', 'Z', 'É', '.', '%', '0'])).collect();
                     if r.chance(1, 12) {
                         s = "é😁".repeat(60 + r.below(10) as usize); // longer than 255 bytes
                     }
